@@ -114,7 +114,10 @@ BAD_SPECS = [
     ['um', {'t': 'int', 'v': 0}], ['um', {'t': 'dec', 'v': '2.5'}],
     ['um', {'t': 'int', 'v': -10}],
     ['cur', 'base'], ['cur', 'unknown'], ['cur', 'int'],
+    ['cur+amount', 'iso'], ['cur+later', 'iso'],
 ]
+MORE_ISO = ['CHF', 'SEK', 'NOK', 'DKK', 'CAD', 'AUD', 'NZD', 'PLN', 'CZK',
+            'KWD', 'BHD', 'CLF']
 VALIDITIES = {
     'none': [{'t': 'none'}],
     'year': [{'t': 'int', 'v': 2024}, {'t': 'str', 'v': '2023'},
@@ -352,6 +355,20 @@ def resolve(st: State, op):
                 spec[2] = val
             elif val == 'base':
                 spec[0] = {'sym': c['base'], 'as': 'obj'}
+            elif val == 'iso':
+                # a real ISO 4217 code that is NOT registered, given by
+                # symbol, in an update that is rejected for another reason
+                # as well (bad amount in the same or in a later spec)
+                free = [c for c in MORE_ISO + decl.ISO_CODES
+                        if c not in model.units]
+                code = free[r[10] % len(free)]
+                if what == 'cur+amount' or pos == nspec - 1:
+                    spec[0] = {'sym': code, 'as': 'str'}
+                    spec[1] = {'t': 'str', 'v': 'abc'}
+                else:
+                    spec[0] = {'sym': code, 'as': 'str'}
+                    specs[-1][1] = {'t': 'str', 'v': '-1'}
+                act['names_symbol'] = code
             elif val == 'unknown':
                 spec[0] = {'sym': 'ZZZ', 'as': 'str'}
             else:
